@@ -200,6 +200,17 @@ CHECKS["C17"] = dict(
    design="5/C17", technique="Coq proof of the push/pop discipline under every failure position; run-time fault injection into histories",
    note="Trusted: Coq kernel; Model/Z3Stack.v hand-written; give-ups are injected as ClaripySolverInterruptError. One defect repaired.")
 
+CHECKS["C09"] = dict(
+   text="Machine-checked proof (Coq) about the operator tables of the Z3 round trip, re-translated from backend_z3.py on every run: every entry "
+        "of op_map (Z3 declaration kind -> claripy operation, used to abstract Z3's answers) in the bitvector/Boolean fragment pairs a Z3 "
+        "operator with a claripy operation of the same SMT-LIB meaning for all arguments (C09_op_map; 39 entries constrained, "
+        "C09_op_map_covered); every _op_raw_ function that is a single Z3_mk_ call uses a constructor with the claripy operation's meaning "
+        "(C09_op_raw). The bvsmod entries are wrong and excepted with a refutation (C09_bsmod_entry_refuted; claripy never emits bvsmod). Z3's "
+        "simplifier, the conversion of constants and sorts, n-ary distinct, floats and strings are NOT modelled: convert+abstract, "
+        "claripy.simplify and Solver.simplify are tested against enumeration of 4096 assignments and, at 65..256 bits, on sampled assignments.",
+   design="5/C09", technique="Coq proof over translated operator tables; enumeration tests of the round trip",
+   note="Trusted: Coq kernel; tools/py2coq.py; Model/Z3Conv.v (hand-written SMT-LIB meaning per Z3 operator name). Floats/strings not covered.")
+
 REASONS = {}
 DEFAULT_REASON = "not claimed yet: its Coq model and correspondence harness are not built in this snapshot (see DESIGN.md section 10 for the order); no other technique is substituted"
 
